@@ -183,9 +183,16 @@ func (l *Link) Inject(proto tcpip.NetworkProtocolNumber, data []byte, remote tcp
 		}
 		vv = buffer.NewVectorisedView(len(b), views)
 	} else {
-		vv = buffer.View(b).ToVectorisedView()
+		vv = buffer.NewVectorisedView(len(b), []buffer.View{buffer.View(b)})
 	}
+	views := vv.Views()
 	l.disp.DeliverNetworkPacket(l, remote, l.addr, proto, vv)
+	// Like the fd-based link, the harness link owns the slice of views it delivered and
+	// clears it when delivery returns (fdbased refills it for the next frame): a packet the
+	// stack wants to keep must have been cloned or copied by then.
+	for i := range views {
+		views[i] = nil
+	}
 }
 
 // Emitted returns a copy of the log.
